@@ -5,6 +5,7 @@
 -/
 import Bridge.Abs
 import PtaProofs.Lemmas.Expansion
+import PtaProofs.Lemmas.AnythingDedup
 namespace Pta.C11
 open Pta
 
@@ -53,5 +54,85 @@ theorem batch_objects (mt : Str → Str → Bool) (g : PGraph Str) (neg dir : Bo
     verdictOf mt g (mkRule (!neg) false neg dir false subs objs) = .pass ↔
     ∀ y ∈ objs, verdictOf mt g (mkRule (!neg) false neg dir false subs [y]) = .pass :=
   Pta.batch_objects_lemma mt g neg dir subs objs hne
+
+/-! ### the `anything` aliases without the de-duplication hypothesis (verdict class)
+
+`_convert_aliases` removes from the subjects of an `import_anything` / `be_imported_by_anything` rule every name that is
+a strict dotted sub module of another subject (`dedupSubjects`), BEFORE a regex subject is expanded.  The theorems below
+show that this never changes the verdict class (pass / fail / error kind), on every graph whose hierarchy edges cover
+the dotted nesting of its nodes (`HierClosed`, a property of every graph `buildGraph` constructs — see
+`hierClosed_buildGraph`) and for subject names that are nodes of the graph.  (The REPORT may differ in duplicate lines.) -/
+
+/-- every graph built by `NetworkxGraph(all_modules, imports, level_limit)` from absolute imports whose importers are
+    among the modules satisfies `HierClosed` (arbitrary module strings, with or without level limit) -/
+theorem hierClosed_buildGraph (mods : List Str) (imps : List ImportRec) (lim : Option Nat)
+    (himp : ∀ i ∈ imps, ExtBuild.NodeOf lim mods (flattenNode lim i.importer) ∧
+      i.importeeParents = parentModules i.importee) :
+    HierClosed (buildGraph mods imps lim) :=
+  Pta.buildGraph_hierClosed mods imps lim himp
+
+/-- so does every graph representing a well-formed architecture (the interface C01 is stated for) -/
+theorem hierClosed_graphOf (a : PtaSpec.Arch) (g : PGraph Str) (hwf : a.wf = true) (hg : GraphOf a g) : HierClosed g :=
+  Pta.hierClosed_of_graphOf (Pta.archWF_of_wf a hwf) hg
+
+/-- the de-duplication of the subjects is irrelevant to the verdict class of
+    `S should not import / be imported by modules except S` (what `_convert_aliases` produces) -/
+theorem anything_dedup_irrelevant (mt : Str → Str → Bool) (g : PGraph Str) (hc : HierClosed g) (dir : Bool)
+    (S : List Filter) (hS : namesOnly S = true) (hn : ∀ f ∈ S, g.hasNode f.id = true) :
+    verdictOf mt g (mkRule false false true dir true S S) =
+    verdictOf mt g (mkRule false false true dir true (dedupSubjects S) (dedupSubjects S)) :=
+  Pta.anything_dedup_irrelevant mt g hc dir S hS hn
+
+/-- the same under "the rule on `S` raises no lookup error" instead of "all names exist" -/
+theorem anything_dedup_irrelevant_of_no_lookup_error (mt : Str → Str → Bool) (g : PGraph Str) (hc : HierClosed g)
+    (dir : Bool) (S : List Filter) (hS : namesOnly S = true)
+    (hok : verdictOf mt g (mkRule false false true dir true S S) ≠ .err .lookupError) :
+    verdictOf mt g (mkRule false false true dir true S S) =
+    verdictOf mt g (mkRule false false true dir true (dedupSubjects S) (dedupSubjects S)) :=
+  Pta.anything_dedup_irrelevant_of_no_lookup_error mt g hc dir S hS hok
+
+/-- the `anything` aliases with a regex subject have the verdict class of the alias on the expansion — no
+    de-duplication hypothesis -/
+theorem regex_expansion_anything_verdict (mt : Str → Str → Bool) (g : PGraph Str) (hnd : g.nodes.Nodup)
+    (hc : HierClosed g) (dir : Bool) (p : Str) (hm : ∃ m ∈ g.nodes, mt p m = true) :
+    verdictOf mt g { cfg := { subjects := some [.regex p], shouldNot := true, importDir := some dir, anything := true }, next := some false } =
+    verdictOf mt g { cfg := { subjects := some ((g.nodes.filter (mt p)).map .name), shouldNot := true, importDir := some dir, anything := true }, next := some false } :=
+  Pta.regex_expansion_anything_verdict_lemma mt g hnd hc dir p hm
+
+/-! non-vacuity and necessity of the hypotheses -/
+
+def exG : PGraph Str :=
+  buildGraph ["p".toList, "p.a".toList, "p.a.x".toList, "q".toList]
+    [absImport "p.a.x".toList "q".toList, absImport "q".toList "p.a.x".toList] none
+def exS : List Filter := [.name "p.a".toList, .name "p.a.x".toList]
+/-- a regex interpretation matching `p.a` and `p.a.x` -/
+def exMt : Str → Str → Bool := fun _ m => m == "p.a".toList || m == "p.a.x".toList
+
+example : HierClosed exG := hierClosed_buildGraph _ _ _ (by simp only [ExtBuild.NodeOf]; decide)
+example : exG.nodes.Nodup := by decide
+example : namesOnly exS = true := by decide
+example : ∀ f ∈ exS, exG.hasNode f.id = true := by decide
+example : dedupSubjects exS = [.name "p.a".toList] := by decide          -- the de-duplication is NOT the identity
+example : (exG.nodes.filter (exMt "p[.]a.*".toList)).map Filter.name = exS := by decide
+example : ∃ m ∈ exG.nodes, exMt "p[.]a.*".toList m = true := by decide
+example : verdictOf exMt exG (mkRule false false true true true exS exS) = .fail := by decide
+example : verdictOf exMt exG (mkRule false false true false true exS exS) = .fail := by decide
+
+/-- why the names must exist (finding F-C13b): an absent name that is a dotted extension of another subject is dropped
+    by the de-duplication, so the rule on `S` raises a lookup error while the de-duplicated rule yields a verdict -/
+theorem anything_dedup_absent_name_witness :
+    let S : List Filter := [.name "p.a".toList, .name "p.a.y".toList]
+    verdictOf exMt exG (mkRule false false true true true S S) = .err .lookupError ∧
+    verdictOf exMt exG (mkRule false false true true true (dedupSubjects S) (dedupSubjects S)) = .fail := by
+  decide
+
+/-- why `HierClosed` is needed: on a hand-made graph with nodes `p`, `p.a` but no hierarchy edge between them the
+    de-duplication turns a failing rule into a passing one (such a graph is never built by `buildGraph`) -/
+theorem anything_dedup_needs_hierarchy_witness :
+    let g : PGraph Str := ⟨["p".toList, "p.a".toList, "q".toList], [⟨"p.a".toList, "q".toList, false⟩]⟩
+    let S : List Filter := [.name "p".toList, .name "p.a".toList]
+    verdictOf exMt g (mkRule false false true true true S S) = .fail ∧
+    verdictOf exMt g (mkRule false false true true true (dedupSubjects S) (dedupSubjects S)) = .pass := by
+  decide
 
 end Pta.C11
